@@ -95,9 +95,14 @@ func CodecCatalogue() []*Request {
 			F("on", 4, "bool", Opt(), Nullable(true)), F("score", 5, "double", Opt(), Nullable(true)), F("plain_opt", 6, "string", Opt()), F("name", 7, "string")),
 	}, "Nul", ctxOpts{}))
 	// nullable on an optional ENUM field (accepted by ValidateNullableAnnotation)
-	add(featureReq("cxnullenum", []*Enum{E("Color", "COLOR_UNSPECIFIED", "COLOR_RED")}, []*Message{
-		M("NulE", F("color", 1, "", EnumT(q("cxnullenum", "Color")), Opt(), Nullable(true)), F("name", 2, "string")),
-	}, "NulE"))
+	{
+		shade := &Enum{Name: "Shade", Values: []*EnumValue{{Name: "SHADE_UNSPECIFIED", Number: 0, EnumValue: Str("none")}, {Name: "SHADE_DARK", Number: 1, EnumValue: Str("dark")}}}
+		add(featureReq("cxnullenum", []*Enum{E("Color", "COLOR_UNSPECIFIED", "COLOR_RED"), shade}, []*Message{
+			M("NulE", F("color", 1, "", EnumT(q("cxnullenum", "Color")), Opt(), Nullable(true)), F("name", 2, "string"),
+				F("shade", 3, "", EnumT(q("cxnullenum", "Shade")), Opt(), Nullable(true)),
+				F("color_num", 4, "", EnumT(q("cxnullenum", "Color")), Opt(), Nullable(true), EnumEnc("NUMBER"))),
+		}, "NulE"))
+	}
 	add(contextReq("cxempty", nil, []*Message{
 		M("Meta", F("k", 1, "string"), F("n", 2, "int32")),
 		M("Emp", F("keep", 1, "", Msg(q("cxempty", "Meta")), Empty("PRESERVE")), F("nul_it", 2, "", Msg(q("cxempty", "Meta")), Empty("NULL")),
